@@ -49,8 +49,9 @@ ASSUME = [
 RULE = ("quick: (a) EXHAUSTIVE: every subset of 8 entries {a.py,a.pyc,a.pyo,__pycache__/a.cpython-312.pyc,a.txt,__init__.py,"
         ".#a.py,sub/b.py} in sd/versions x sourceless x recursive (subsets in a finding class are skipped unless the finding "
         "is recorded in known_findings.json); (b) EXHAUSTIVE: 40 version_locations strings x 7 version_path_separator values "
-        "on a fixed 3-location tree; (c) seeded random trees (1-3 locations, nested, overlapping, repeated, symlinked "
-        "locations and files, __pycache__, duplicate ids, junk content) x all separators x recursive x sourceless. "
+        "on a fixed 3-location tree; (c) seeded random trees (2500 quick / 40000 thorough; 1-3 locations, nested, "
+        "overlapping, repeated, symlinked locations and files, __pycache__, duplicate ids, junk content) x all separators x "
+        "recursive x sourceless, 40% of them configured through a real alembic.ini file. "
         "non-trivial = at least one revision loaded or an error raised, and at least one entry ignored, de-duplicated or "
         "superseded; distinct by the encoded input")
 EXHAUSTIVE = {"quick": False, "thorough": False}
@@ -412,6 +413,7 @@ def rand_case(rnd):
         if sep not in ("none", "bad", "space") and rnd.random() < 0.1:
             locs = locs + SEP_CHAR[sep]
     h = case(sep, locs, rnd.random() < 0.5, rnd.random() < 0.55, tree)
+    h["ini"] = rnd.random() < 0.4
     if has_blank(h["sep"], h["locs"]) and F_BLANK not in _KNOWN:
         h["locs"] = " ".join(x for x in h["locs"].replace(",", " ").split()) if sep == "none" else h["locs"].strip()
         if has_blank(h["sep"], h["locs"]):
@@ -449,16 +451,47 @@ def search(tier, seed):
 
 
 # ----------------------------------------------------------------------------- encoding
+FILE_PATTERNS = ["%s.py", "%s.pyc", "%s.pyo", "%s.txt", "%s.py.bak", "__init__.py", ".#%s.py", "__init__%s.py", "%s.x.py",
+                 "%s", "%s.pyc.py", "%s.PY", ".%s.py", "%s.py.pyc"]
+CACHE_PATTERNS = ["%s.cpython-312.pyc", "%s.cpython-311.pyc", "%s.cpython-312.opt-1.pyc", "__init__.cpython-312.pyc", "%s.pyc",
+                  "%s.txt", "%s.x.cpython-312.pyc"]
+OTHER_NAMES = ["sd", "versions", "v1", "v2", "v3", "sub", "sub2", "pkg", "__pycache__", "x__pycache__", "lnk", "lnk2",
+               "l__pycache__", "lnk.py", "l2.txt", "zz.py", "s0.py", "a1.py", "a2.py", "a3.py", "b1.py", "c1.py", "notes.txt",
+               "c2.cpython-312.pyc", "x.txt", "x.py.bak", "x.cpython-312.pyc", "x.pyo", "setup.py"]
+
+
+def _name_pool():
+    pool = []
+    for pat in FILE_PATTERNS + CACHE_PATTERNS:
+        for b in BASES:
+            pool.append(pat.replace("%s", b))
+    pool.extend(OTHER_NAMES)
+    out = {}
+    for n in pool:
+        if n not in out:
+            out[n] = "nm%d" % len(out)
+    return out
+
+
+NAME_IDS = _name_pool()
+# names are defined once per case file; the cases refer to them by identifier (Coq parses numerals slowly)
+COQ["preamble"] = "\n".join("Definition %s : str := %s." % (v, cf.string(k)) for k, v in NAME_IDS.items())
+
+
+def coq_name(n):
+    return NAME_IDS.get(n) or cf.string(n)
+
+
 def coq_node(e):
     if e[0] == "f":
         return "File %s" % cf.opt(e[2])
     if e[0] == "l":
-        return "Link %s" % cf.lst(cf.string(c) for c in e[2])
+        return "Link %s" % cf.lst(coq_name(c) for c in e[2])
     return "Dir %s" % coq_entries(e[2])
 
 
 def coq_entries(es):
-    return cf.lst("(%s, %s)" % (cf.string(e[1]), coq_node(e)) for e in es)
+    return cf.lst("(%s, %s)" % (coq_name(e[1]), coq_node(e)) for e in es)
 
 
 def coq_input(h):
@@ -529,16 +562,32 @@ def run_case(h):
         for p, tgt in links:
             os.symlink(os.path.join(root, *tgt), p)
         os.chdir(root)
-        cfg = Config()
-        cfg.set_main_option("script_location", "sd")
+        opts = {"script_location": "sd"}
         if h["locs"] is not None:
-            cfg.set_main_option("version_locations", h["locs"])
+            opts["version_locations"] = h["locs"]
         if h["sep"] != "none":
-            cfg.set_main_option("version_path_separator", "comma" if h["sep"] == "bad" else h["sep"])
+            opts["version_path_separator"] = "comma" if h["sep"] == "bad" else h["sep"]
         if h["rec"]:
-            cfg.set_main_option("recursive_version_locations", "true")
+            opts["recursive_version_locations"] = "true"
         if h["sl"]:
-            cfg.set_main_option("sourceless", "true")
+            opts["sourceless"] = "true"
+        cfg = None
+        if h.get("ini"):
+            # a real alembic.ini (multi-line values indented); used only when the parser hands from_config the same string
+            with open(os.path.join(root, "alembic.ini"), "w") as f:
+                f.write("[alembic]\n" + "".join("%s = %s\n" % (k, v.replace("\n", "\n    ")) for k, v in opts.items()))
+            try:
+                c2 = Config(os.path.join(root, "alembic.ini"))
+                if all(c2.get_main_option(k) == v for k, v in opts.items()):
+                    cfg = c2
+            except Exception:
+                cfg = None
+            os.remove(os.path.join(root, "alembic.ini"))
+        via_ini = cfg is not None
+        if cfg is None:
+            cfg = Config()
+            for k, v in opts.items():
+                cfg.set_main_option(k, v)
         out = None
         try:
             sd = ScriptDirectory.from_config(cfg)
@@ -583,7 +632,7 @@ def run_case(h):
     nfiles = len(real_paths(h["tree"], "f"))
     loaded = len(out.get("ids", ()))
     nontrivial = (loaded > 0 or "err" in out) and (nfiles > loaded or out.get("twice", 0) > 0)
-    shape = "%s-%s%s-%s" % (h["sep"] if h["locs"] is not None else "default", "rec" if h["rec"] else "flat",
-                            "-sl" if h["sl"] else "",
+    shape = "%s%s-%s%s-%s" % ("ini:" if via_ini else "", h["sep"] if h["locs"] is not None else "default",
+                              "rec" if h["rec"] else "flat", "-sl" if h["sl"] else "",
                             out.get("err") or ("ok%s%s" % ("+twice" if out["twice"] else "", "+dup" if out["dups"] else "")))
     return dict(cin=coq_input(h), cout=cout, out=out, nontrivial=nontrivial, shape=shape)
